@@ -230,9 +230,11 @@ func acquireLock(path string, timeout time.Duration) (schema.UnlockFunc, error) 
 	if err != nil {
 		return nil, fmt.Errorf("sql/sqlite: creating lockfile %q: %w", path, err)
 	}
+	verifPoint("lock.created")
 	if _, err := lock.Write([]byte(strconv.FormatInt(time.Now().Add(timeout).UnixNano(), 10))); err != nil {
 		return nil, fmt.Errorf("sql/sqlite: writing to lockfile %q: %w", path, err)
 	}
+	verifPoint("lock.written")
 	defer lock.Close()
 	return func() error { return os.Remove(path) }, nil
 }
